@@ -242,6 +242,7 @@ structure VF where
   current_serialno : Int := 0
   os : OStream := {}
   vd : Option Dec := none          -- `vd`/`vb` initialised
+  lapped : Bool := false           -- private_state.lapout_done of `vd`
   hs : Nat := 0
   source : Bool := false           -- `vf->datasource` set
   closes : Nat := 0                -- calls of the close callback so far
@@ -386,7 +387,7 @@ def rawTotal (vf : VF) (i : Int) : Int :=
   else vf.offsets[i.toNat + 1]! - vf.offsets[i.toNat]!
 
 /-- `_decode_clear` -/
-def decodeClear : M Unit := modify fun vf => { vf with vd := none, ready := OPENED }
+def decodeClear : M Unit := modify fun vf => { vf with vd := none, lapped := false, ready := OPENED }
 
 def curInfo (vf : VF) : LinkInfo := if vf.seekable then vf.infos[vf.current_link.toNat]! else vf.infos[0]!
 def freshDec (vf : VF) : Dec := Dec.restart { bs0 := (curInfo vf).bs0, bs1 := (curInfo vf).bs1 } vf.hs
@@ -397,10 +398,10 @@ def makeDecodeReady : M Int := do
   let vf ← get
   if vf.ready > STREAMSET then return 0
   if vf.ready < STREAMSET then return OV_EFAULT
-  set { vf with vd := some (freshDec vf), ready := INITSET }
+  set { vf with vd := some (freshDec vf), lapped := false, ready := INITSET }
   return 0
 
-def restartDec : M Unit := modify fun vf => { vf with vd := vf.vd.map (fun _ => freshDec vf) }
+def restartDec : M Unit := modify fun vf => { vf with vd := vf.vd.map (fun _ => freshDec vf), lapped := false }
 
 /-- `vorbis_synthesis_lapout`: position effects and the returned count -/
 def lapout (z : Sizes) (hs : Nat) (d : Dec) : Dec × Int :=
@@ -410,7 +411,7 @@ def lapout (z : Sizes) (hs : Nat) (d : Dec) : Dec × Int :=
   if d.ret < 0 then (d, 0)
   else
     let d1 := if d.cW = n1 then { d with cur := d.cur - n1, ret := d.ret - n1, cW := 0 } else d
-    let sh : Int := if d1.lW ≠ d1.W then (n1 - n0) / 2 else if d1.lW = false then n1 - n0 else 0
+    let sh : Int := if d1.ret ≥ n1 then 0 else if d1.lW ≠ d1.W then (n1 - n0) / 2 else if d1.lW = false then n1 - n0 else 0
     let d2 := { d1 with cur := d1.cur + sh, ret := d1.ret + sh }
     (d2, n1 + n - d2.ret)
 
@@ -443,7 +444,7 @@ def fetchAndProcess (ph : Phys) (readp spanp : Bool) : Nat → M Int
               | some w, some d =>
                   if d.pcmout ≠ 0 then return some OV_EFAULT
                   let (d1, _) := d.blockin (sizesOf vf) vf.hs { W := w, gp := p.gran, eos := p.eos, seq := pno }
-                  modify fun vf => { vf with vd := some d1 }
+                  modify fun vf => { vf with vd := some d1, lapped := false }
                   if p.gran ≠ -1 ∧ !p.eos then
                     let link : Nat := if vf.seekable then vf.current_link.toNat else 0
                     let g0 := if vf.seekable ∧ link > 0 then p.gran - vf.pcmlengths[link * 2]! else p.gran
@@ -851,7 +852,7 @@ def halfrate (ph : Phys) (flag : Bool) : M Int := do
   set { vf with hs := if flag ∧ !refused then 1 else 0 }
   let vf ← get
   if vf.ready > STREAMSET then
-    set { vf with vd := none, ready := STREAMSET }
+    set { vf with vd := none, lapped := false, ready := STREAMSET }
     if vf.pcm_offset ≥ 0 then
       let pos := vf.pcm_offset
       modify fun vf => { vf with pcm_offset := -1 }
@@ -898,10 +899,15 @@ def getlap (ph : Phys) (lapsize : Int) : Nat → Int → M Int
             let r ← fetchAndProcess ph true false (fpFuel ph)
             if r = OV_EOF then return c else getlap ph lapsize f c
 
+/-- `vorbis_synthesis_lapout(&vf->vd,..)` on the handle: a no-op when the buffer is already arranged -/
+def doLapout : M Unit := modify fun vf =>
+  if vf.lapped then vf
+  else { vf with vd := vf.vd.map (fun d => (lapout (sizesOf vf) vf.hs d).1),
+                 lapped := (match vf.vd with | some d => decide (d.ret ≥ 0) | none => false) }
+
 def getlapFull (ph : Phys) (lapsize : Int) : M Unit := do
   let c ← getlap ph lapsize (ph.work + lapsize.toNat + 4) 0
-  if c < lapsize then
-    modify fun vf => { vf with vd := vf.vd.map fun d => (lapout (sizesOf vf) vf.hs d).1 }
+  if c < lapsize then doLapout
 
 /-- `_ov_64_seek_lap` / `_ov_d_seek_lap` -/
 def seekLap (ph : Phys) (localseek : M Int) : M Int := do
@@ -915,8 +921,16 @@ def seekLap (ph : Phys) (localseek : M Int) : M Int := do
   if r2 ≠ 0 then return r2
   let r3 ← initprime ph (ph.work)
   if r3 ≠ 0 then return r3
-  modify fun vf => { vf with vd := vf.vd.map fun d => (lapout (sizesOf vf) vf.hs d).1 }
+  doLapout
   return 0
+
+/-- the public lapped seeks: what the plain seek would refuse is refused before anything is consumed -/
+def lapGuard (inRange : VF → Bool) (body : M Int) : M Int := do
+  let vf ← get
+  if vf.ready < OPENED then return OV_EINVAL
+  if !vf.seekable then return OV_ENOSEEK
+  if !inRange vf then return OV_EINVAL
+  body
 
 /-- `ov_open1` (`ov_test_callbacks`): the code and the serial numbers of the first link's BOS pages -/
 def open1 (ph : Phys) (seekable : Bool) : M (Int × List Int) := do
